@@ -812,7 +812,9 @@ def _stmt_start(toks, i, lo, qual, anchor):
 
 
 def _stmt_end(toks, i, hi, qual, anchor):
-    """the `;` that ends the statement containing token i"""
+    """the `;` that ends the statement containing token i (an anchor that ends in an opening bracket: skip to its partner first)"""
+    if toks[i].text in OPEN:
+        i = match_close(toks, i)
     j = i + 1
     while j < hi:
         x = toks[j].text
